@@ -22,6 +22,8 @@ mod patch_flags;
 mod resolve_type;
 mod slot_flag;
 mod util;
+#[cfg(feature = "verif-trace")]
+pub mod verif;
 
 const FRAGMENT: &str = "Fragment";
 const KEEP_ALIVE: &str = "KeepAlive";
@@ -87,6 +89,10 @@ where
     }
 
     fn import_from_vue(&mut self, item: &'static str) -> Ident {
+        #[cfg(feature = "verif-trace")]
+        if !self.vue_imports.contains_key(item) {
+            verif::emit("import", &[("name", verif::V::S(item))]);
+        }
         self.vue_imports
             .entry(item)
             .or_insert_with_key(|name| private_ident!(format!("_{name}")))
@@ -94,6 +100,10 @@ where
     }
 
     fn generate_slot_helper(&mut self) -> Ident {
+        #[cfg(feature = "verif-trace")]
+        if self.slot_helper_ident.is_none() {
+            verif::emit("slot_helper", &[]);
+        }
         self.slot_helper_ident
             .get_or_insert_with(|| private_ident!("_isSlot"))
             .clone()
@@ -105,6 +115,14 @@ where
         }
 
         let is_component = self.is_component(&jsx_element.opening.name);
+        #[cfg(feature = "verif-trace")]
+        verif::emit(
+            "enter_element",
+            &[
+                ("depth", verif::V::N(self.slot_flag_stack.len() as i64)),
+                ("component", verif::V::B(is_component)),
+            ],
+        );
         let mut directives = vec![];
         let AttrsTransformationResult {
             attrs,
@@ -233,6 +251,11 @@ where
         if self.options.optimize {
             self.slot_flag_stack.push(SlotFlag::Stable);
         }
+        #[cfg(feature = "verif-trace")]
+        verif::emit(
+            "enter_fragment",
+            &[("depth", verif::V::N(self.slot_flag_stack.len() as i64))],
+        );
 
         Expr::Call(CallExpr {
             span: DUMMY_SP,
@@ -660,6 +683,24 @@ where
             patch_flags.insert(PatchFlags::NEED_PATCH);
         }
 
+        #[cfg(feature = "verif-trace")]
+        verif::emit(
+            "attrs_done",
+            &[
+                ("component", verif::V::B(is_component)),
+                ("flags", verif::V::N(patch_flags.bits() as i64)),
+                ("has_ref", verif::V::B(has_ref)),
+                ("has_class", verif::V::B(has_class_binding)),
+                ("has_style", verif::V::B(has_style_binding)),
+                ("has_hydration", verif::V::B(has_hydration_event_binding)),
+                ("has_dynamic_keys", verif::V::B(has_dynamic_keys)),
+                ("directives", verif::V::N(directives.len() as i64)),
+                (
+                    "dynamic_props",
+                    verif::V::L(dynamic_props.iter().map(|p| p.to_string()).collect()),
+                ),
+            ],
+        );
         AttrsTransformationResult {
             attrs: expr,
             patch_flags,
@@ -697,6 +738,11 @@ where
                                 if !ident.to_id().1.has_mark(self.unresolved_mark) =>
                             {
                                 self.slot_flag_stack.fill(SlotFlag::Dynamic);
+                                #[cfg(feature = "verif-trace")]
+                                verif::emit(
+                                    "fill_dynamic",
+                                    &[("depth", verif::V::N(self.slot_flag_stack.len() as i64))],
+                                );
                             }
                             _ => {}
                         }
@@ -713,6 +759,11 @@ where
                                 if !ident.to_id().1.has_mark(self.unresolved_mark) =>
                             {
                                 self.slot_flag_stack.fill(SlotFlag::Dynamic);
+                                #[cfg(feature = "verif-trace")]
+                                verif::emit(
+                                    "fill_dynamic",
+                                    &[("depth", verif::V::N(self.slot_flag_stack.len() as i64))],
+                                );
                             }
                             _ => {}
                         }
@@ -739,6 +790,16 @@ where
         } else {
             SlotFlag::Stable
         };
+        #[cfg(feature = "verif-trace")]
+        verif::emit(
+            "exit_children",
+            &[
+                ("depth", verif::V::N(self.slot_flag_stack.len() as i64)),
+                ("flag", verif::V::N(slot_flag.clone() as u8 as i64)),
+                ("component", verif::V::B(is_component)),
+                ("n", verif::V::N(elems.len() as i64)),
+            ],
+        );
 
         match elems.as_slice() {
             [] => {
@@ -927,6 +988,14 @@ where
         });
 
         self.slot_counter += 1;
+        #[cfg(feature = "verif-trace")]
+        verif::emit(
+            "gen_slot",
+            &[
+                ("name", verif::V::S(&ident.sym)),
+                ("counter", verif::V::N(self.slot_counter as i64)),
+            ],
+        );
         ident
     }
 
@@ -1049,6 +1118,8 @@ where
                 });
                 if let Some(pragma) = pragma {
                     self.pragma = Some(pragma.to_string());
+                    #[cfg(feature = "verif-trace")]
+                    verif::emit("pragma", &[("text", verif::V::S(pragma))]);
                 }
             });
         }
@@ -1056,6 +1127,14 @@ where
 
     fn build_iife(&mut self, elems: Vec<Option<ExprOrSpread>>) -> Vec<Option<ExprOrSpread>> {
         let left = self.assignment_left.take();
+        #[cfg(feature = "verif-trace")]
+        verif::emit(
+            "iife_take",
+            &[(
+                "left",
+                verif::V::S(left.as_ref().map(|left| &*left.sym).unwrap_or("")),
+            )],
+        );
         if let Some(left) = left {
             elems
                 .into_iter()
@@ -1095,6 +1174,8 @@ where
                                 }))),
                                 definite: false,
                             });
+                            #[cfg(feature = "verif-trace")]
+                            verif::emit("capture", &[("name", verif::V::S(&name.sym))]);
                             Some(ExprOrSpread {
                                 spread: None,
                                 expr: Box::new(Expr::Ident(name)),
@@ -1135,8 +1216,24 @@ where
             .body
             .iter()
             .for_each(|item| self.search_jsx_pragma(item.span()));
+        #[cfg(feature = "verif-trace")]
+        verif::emit(
+            "enter_module",
+            &[("n", verif::V::N(module.body.len() as i64))],
+        );
 
         module.visit_mut_children_with(self);
+        #[cfg(feature = "verif-trace")]
+        verif::emit(
+            "drain_module",
+            &[
+                ("consts", verif::V::L(verif_names(&self.injecting_consts))),
+                ("vars", verif::V::L(verif_names(&self.injecting_vars))),
+                ("slot_helper", verif::V::B(self.slot_helper_ident.is_some())),
+                ("transform_on", verif::V::B(self.transform_on_helper.is_some())),
+                ("stack", verif::V::N(self.slot_flag_stack.len() as i64)),
+            ],
+        );
 
         if !self.injecting_consts.is_empty() {
             module.body.insert(
@@ -1219,7 +1316,17 @@ where
     }
 
     fn visit_mut_stmts(&mut self, stmts: &mut Vec<Stmt>) {
+        #[cfg(feature = "verif-trace")]
+        verif::emit("enter_stmts", &[("n", verif::V::N(stmts.len() as i64))]);
         stmts.visit_mut_children_with(self);
+        #[cfg(feature = "verif-trace")]
+        verif::emit(
+            "exit_stmts",
+            &[
+                ("consts", verif::V::L(verif_names(&self.injecting_consts))),
+                ("vars", verif::V::L(verif_names(&self.injecting_vars))),
+            ],
+        );
 
         if !self.injecting_consts.is_empty() {
             stmts.insert(
@@ -1248,7 +1355,21 @@ where
     }
 
     fn visit_mut_arrow_expr(&mut self, arrow_expr: &mut ArrowExpr) {
+        #[cfg(feature = "verif-trace")]
+        verif::emit(
+            "enter_arrow",
+            &[("block", verif::V::B(arrow_expr.body.is_block_stmt()))],
+        );
         arrow_expr.visit_mut_children_with(self);
+        #[cfg(feature = "verif-trace")]
+        verif::emit(
+            "exit_arrow",
+            &[
+                ("block", verif::V::B(arrow_expr.body.is_block_stmt())),
+                ("consts", verif::V::L(verif_names(&self.injecting_consts))),
+                ("vars", verif::V::L(verif_names(&self.injecting_vars))),
+            ],
+        );
 
         if !self.injecting_consts.is_empty() || !self.injecting_vars.is_empty() {
             if let BlockStmtOrExpr::Expr(ret) = &*arrow_expr.body {
@@ -1298,6 +1419,14 @@ where
                 ..
             }) => self.assignment_left = Some(binding_ident.id.clone()),
             _ => {}
+        }
+        #[cfg(feature = "verif-trace")]
+        if let Expr::Assign(AssignExpr {
+            left: AssignTarget::Simple(SimpleAssignTarget::Ident(binding_ident)),
+            ..
+        }) = expr
+        {
+            verif::emit("assign_seen", &[("sym", verif::V::S(&binding_ident.id.sym))]);
         }
     }
 
@@ -1376,6 +1505,8 @@ where
         });
         if let Some(ctxt) = ctxt {
             self.define_component = Some(ctxt);
+            #[cfg(feature = "verif-trace")]
+            verif::emit("define_component_import", &[]);
         }
     }
 
@@ -1391,6 +1522,14 @@ where
             } else {
                 self.interfaces.insert(key, ts_interface_decl.clone());
             }
+            #[cfg(feature = "verif-trace")]
+            verif::emit(
+                "register_type",
+                &[
+                    ("kind", verif::V::S("interface")),
+                    ("name", verif::V::S(&ts_interface_decl.id.sym)),
+                ],
+            );
         }
     }
 
@@ -1403,6 +1542,14 @@ where
                     ts_type_alias_decl.id.ctxt,
                 ),
                 (*ts_type_alias_decl.type_ann).clone(),
+            );
+            #[cfg(feature = "verif-trace")]
+            verif::emit(
+                "register_type",
+                &[
+                    ("kind", verif::V::S("alias")),
+                    ("name", verif::V::S(&ts_type_alias_decl.id.sym)),
+                ],
             );
         }
     }
@@ -1417,6 +1564,11 @@ where
         if !self.is_define_component_call(call_expr) {
             return;
         }
+        #[cfg(feature = "verif-trace")]
+        verif::emit(
+            "define_component_call",
+            &[("args", verif::V::N(call_expr.args.len() as i64))],
+        );
 
         let Some(maybe_setup) = call_expr.args.first() else {
             return;
@@ -1457,6 +1609,24 @@ where
 }
 
 fn inject_define_component_option(call: &mut CallExpr, name: &'static str, value: Expr) {
+    #[cfg(feature = "verif-trace")]
+    verif::emit(
+        "inject_option",
+        &[
+            ("key", verif::V::S(name)),
+            (
+                "how",
+                verif::V::S(match call.args.get(1) {
+                    Some(ExprOrSpread {
+                        spread: Some(..), ..
+                    }) => "skip_spread",
+                    Some(ExprOrSpread { expr, .. }) if expr.is_object() => "object",
+                    Some(..) => "wrap",
+                    None => "push",
+                }),
+            ),
+        ],
+    );
     let options = call.args.get_mut(1);
     if options
         .as_ref()
@@ -1518,4 +1688,15 @@ fn inject_define_component_option(call: &mut CallExpr, name: &'static str, value
             });
         }
     }
+}
+
+#[cfg(feature = "verif-trace")]
+fn verif_names(decls: &[VarDeclarator]) -> Vec<String> {
+    decls
+        .iter()
+        .map(|decl| match &decl.name {
+            Pat::Ident(ident) => ident.id.sym.to_string(),
+            _ => String::new(),
+        })
+        .collect()
 }
